@@ -115,9 +115,12 @@ def check_step_loop(ctx):
         if ca and ca[0][1] == 0:      # None
             okn = okn and p.end == "return"
     ctx.check(okn and len(loopp) >= 1, "R03.1", "counter-overflow-leaves-the-loop", "%d continuing path(s)" % len(loopp), f.at())
-    for p in loopp:
+    for i, p in enumerate(loopp):
         perf = [c for c in p.calls() if callee_is(c, "State::perform", "Instruction::perform")]
-        ctx.check(len(perf) == 1, "R03.1", "one-perform-per-iteration", "%d perform call(s) on the iteration path" % len(perf), f.at())
+        ctx.check(len(perf) == 1, "R03.1", "one-perform-per-iteration/%d" % i, "%d perform call(s) on the iteration path" % len(perf), f.at())
+        inc = [c for c in p.conds if c[0][0] == "discr" and callee_is(c[0][1], "usize::checked_add") and c[1] == 1]
+        ctx.check(len(inc) == 1, "R03.1", "every-iteration-counts-a-step/%d" % i, "iteration path passes through checked_add(counter, 1) == Some", f.at(),
+                  bad_detail="there is a way around the loop that performs an instruction without advancing the step counter: [%s]" % cond_str(p)[:400])
     # every perform in the function is inside the loop body
     for bi, t in f.calls():
         if path_ends(t.get("fn") or "", "State::perform") or path_ends(t.get("fn") or "", "Instruction::perform"):
